@@ -105,12 +105,16 @@ structure CanOut where
   data  : List Byte
   deriving Repr, DecidableEq
 
-/-- the body of `new_packet`'s while loop for the message at `at_`; `none` = `return 0` -/
-def listenMsg (cfg : TunnelCfg) (m : Mem) (at_ : Nat) : Option (CanOut × Nat) :=
+def maxData (cfg : TunnelCfg) : Nat := if cfg.fd then 64 else 8
+
+/-- the body of `new_packet`'s while loop for the message at `at_`, with `rem` announced ACF
+    octets not yet consumed; `none` = `return 0` (packet dropped from here on) -/
+def listenMsg (cfg : TunnelCfg) (m : Mem) (at_ rem : Nat) : Option (CanOut × Nat) :=
   if getNamed Spec.acfCommon m at_ "ACF_MSG_TYPE" ≠ 1 then none else
   let id := getNamed Spec.can m at_ "CAN_IDENTIFIER"
   let msgLen := (getNamed Spec.can m at_ "ACF_MSG_LENGTH" * 4) % 2 ^ 16
   let plen := canPayloadLength Spec.can m at_
+  if msgLen < 16 ∨ msgLen > rem ∨ 16 + plen > msgLen ∨ plen > maxData cfg then none else
   let eff := getNamed Spec.can m at_ "EFF"
   if eff = 0 ∧ id > 0x7FF then none else
   let id1 := if eff ≠ 0 then id ||| CAN_EFF_FLAG else id
@@ -122,24 +126,37 @@ def listenMsg (cfg : TunnelCfg) (m : Mem) (at_ : Nat) : Option (CanOut × Nat) :
     else 0
   some (⟨id2, plen, flags, Mem.read m (at_ + 16) plen⟩, msgLen)
 
-def listenLoop (cfg : TunnelCfg) (m : Mem) (base msgLength : Nat) : Nat → Nat → List CanOut
+/-- The ACF walk: one event per message header inspected — the buffer offset of the message
+    and the frame written for it (`none`: message rejected, walk ends). -/
+def listenLoop (cfg : TunnelCfg) (m : Mem) (base msgLength : Nat) : Nat → Nat → List (Nat × Option CanOut)
   | 0, _ => []
   | fuel + 1, done =>
     if done < msgLength then
-      match listenMsg cfg m (base + done) with
-      | some (o, l) => o :: listenLoop cfg m base msgLength fuel (done + l)
-      | none => []
+      if msgLength - done < 16 then [] else
+      match listenMsg cfg m (base + done) (msgLength - done) with
+      | some (o, l) => (base + done, some o) :: listenLoop cfg m base msgLength fuel (done + l)
+      | none => [(base + done, none)]
     else []
 
-/-- `new_packet` on a received datagram (placed at address 0 of the listener's array). -/
-def listenPacket (cfg : TunnelCfg) (m : Mem) : List CanOut :=
+/-- `new_packet` on a datagram of `n` octets received into the listener's array (address 0;
+    octets from `n` on are whatever the array held before): the walk events. -/
+def listenWalk (cfg : TunnelCfg) (m : Mem) (n : Nat) : List (Nat × Option CanOut) :=
+  if cfg.udp ∧ n < 4 then [] else
   let cfAt := if cfg.udp then 4 else 0
+  if n < cfAt + 12 then [] else
   let subtype := getNamed Spec.commonHeader m cfAt "SUBTYPE"
   if subtype = 0x05 then
-    listenLoop cfg m (cfAt + 24) (getNamed Spec.tscf m cfAt "STREAM_DATA_LENGTH") 400 0
+    if n < cfAt + 24 then [] else
+    let len := getNamed Spec.tscf m cfAt "STREAM_DATA_LENGTH"
+    if cfAt + 24 + len > n then [] else listenLoop cfg m (cfAt + 24) len 400 0
   else if subtype = 0x82 then
-    listenLoop cfg m (cfAt + 12) (getNamed Spec.ntscf m cfAt "NTSCF_DATA_LENGTH") 400 0
+    let len := getNamed Spec.ntscf m cfAt "NTSCF_DATA_LENGTH"
+    if cfAt + 12 + len > n then [] else listenLoop cfg m (cfAt + 12) len 400 0
   else []
+
+/-- the frames handed to `write`, in order -/
+def listenPacket (cfg : TunnelCfg) (m : Mem) (n : Nat) : List CanOut :=
+  (listenWalk cfg m n).filterMap (·.2)
 
 /-- The talker's endless sending loop on the frames waiting on the CAN socket: the datagrams
     sent and the frames still waiting when the talker blocks in `read`.  `bufs k` is the
